@@ -1,0 +1,22 @@
+//go:build verif
+
+package segreader
+
+// C01/C03: the reader advances from record to record by the record length:
+// either the segment-level constant size (when one is advertised) or the
+// length encoded in the record's own type/length header.
+// Checked by /verif/bin/govc.  Comment-only file.
+
+//@ spec recLenAt(buf []byte, off uint32) uint32 = ite(buf[off] == 0x02 || buf[off] == 0x14 || buf[off] == 0x15, 3 + uint32(le16(buf[off+1:])), ite(buf[off] == 0x01 || buf[off] == 0x03 || buf[off] == 0x07, uint32(2), ite(buf[off] == 0x04 || buf[off] == 0x08, uint32(3), ite(buf[off] == 0x05 || buf[off] == 0x09, uint32(5), ite(buf[off] == 0x13, uint32(1), uint32(9))))))
+//@ spec knownRecType(t byte) bool = t == 0x01 || t == 0x02 || t == 0x03 || t == 0x04 || t == 0x05 || t == 0x06 || t == 0x07 || t == 0x08 || t == 0x09 || t == 0x10 || t == 0x11 || t == 0x13 || t == 0x14 || t == 0x15
+
+//@ func (*SegmentFileReader).getCurrentRecordLength
+//@   props C01
+//@   requires sfr != nil && int(sfr.currOffset) < len(sfr.currRawBlockBuffer)
+//@   requires implies(sfr.currRawBlockBuffer[sfr.currOffset] == 0x02 || sfr.currRawBlockBuffer[sfr.currOffset] == 0x14 || sfr.currRawBlockBuffer[sfr.currOffset] == 0x15, int(sfr.currOffset) + 3 <= len(sfr.currRawBlockBuffer))
+//@   ensures [constant-size] implies(sfr.consistentColValueLen > 0 && sfr.consistentColValueLen != sutils.INCONSISTENT_CVAL_SIZE, result1 == nil && result0 == sfr.consistentColValueLen)
+//@   ensures [from-header] implies(!(sfr.consistentColValueLen > 0 && sfr.consistentColValueLen != sutils.INCONSISTENT_CVAL_SIZE) && knownRecType(sfr.currRawBlockBuffer[sfr.currOffset]), result1 == nil && result0 == recLenAt(sfr.currRawBlockBuffer, sfr.currOffset))
+//@   ensures [bad-type] implies(!(sfr.consistentColValueLen > 0 && sfr.consistentColValueLen != sutils.INCONSISTENT_CVAL_SIZE) && !knownRecType(sfr.currRawBlockBuffer[sfr.currOffset]), result1 != nil)
+//@   pure
+//@   safe
+//@ end
